@@ -21,7 +21,8 @@ N = int(sys.argv[1]) if len(sys.argv) > 1 else 150
 rng = random.Random(int(sys.argv[2]) if len(sys.argv) > 2 else 0)
 
 ERR = {"ZeroDivisionError": "ZeroDivisionError", "DivisionByZero": "DivisionByZero", "InvalidOperation": "InvalidOperation",
-       "AssertionError": "AssertionError", "KeyError": "KeyError", "ValueError": "ValueError", "TypeError": "TypeError"}
+       "AssertionError": "AssertionError", "KeyError": "KeyError", "ValueError": "ValueError", "TypeError": "TypeError", "IndexError": "IndexError",
+       "RuntimeError": "RuntimeError"}
 
 
 def li(n):           # Lean Int literal
@@ -210,7 +211,49 @@ for _ in range(N):
     case("sq_vault_status", f"(sq_get_vault_status NumCtx.py {lr(w_price)} {lr(sh2)} {lr(tot)} {lr(nf_)} {lgiven}).map (fun r => (if r.1 then (10 : Int) else 0) + (if r.2 then 1 else 0))",
          "shI", lambda: (lambda r: 10 * int(r[0]) + int(r[1]))(sq.get_vault_status(VaultKey(7), nf_, given)))
 
+    # ---- uniswap/core.py V3CoreLib: positions and the per-bar fee (objects built as the market builds them; the Lean side gets the fields they read)
+    from demeter.uniswap.core import V3CoreLib
+    from demeter.uniswap._typing import UniV3Pool, Position, PositionInfo, UniV3PoolStatus
+    from demeter.uniswap.helper import from_atomic_unit
+    upool = UniV3Pool(TokenInfo("USDC", d0), TokenInfo("WETH", d1), 0.05, TokenInfo("USDC", d0))
+    lo_t, up_t = sorted([ta, tb]) if rng.random() < 0.85 else (ta, tb)
+    if rng.random() < 0.03:
+        up_t = rng.choice([887273, -887273, 10**6])
+
+    def new_pos():
+        r = V3CoreLib.new_position(upool, a0, a1, lo_t, up_t, s)
+        assert type(r[3]) is PositionInfo
+        return (r[0], r[1], r[2], r[3].lower_tick, r[3].upper_tick)
+    case("uc_new_position", f"(unicore_new_position NumCtx.py {li(d0)} {li(d1)} {lr(a0)} {lr(a1)} {li(lo_t)} {li(up_t)} {li(s)}).map "
+                            f"(fun r => s!\"({{rs r.1}}, {{rs r.2.1}}, {{r.2.2.1}}, {{r.2.2.2.1}}, {{r.2.2.2.2}})\")", "shS", new_pos)
+    Lq = rng.choice([0, L, rng.randint(1, 10**20), -rng.randint(1, 10**12)])
+    pinfo = PositionInfo(lo_t, up_t)
+    case("uc_token_amounts", f"unicore_get_token_amounts NumCtx.py {li(d0)} {li(d1)} {li(lo_t)} {li(up_t)} {li(s)} {li(Lq)}", "shRR",
+         lambda: V3CoreLib.get_token_amounts(upool, pinfo, s, Lq))
+    case("uc_close_position", f"unicore_close_position NumCtx.py {li(d0)} {li(d1)} {li(lo_t)} {li(up_t)} {li(Lq)} {li(s)}", "shRR",
+         lambda: V3CoreLib.close_position(upool, pinfo, Lq, s))
+    x_at = rng.choice([rand_dec(), Decimal(rng.randint(0, 10**24)), -rand_dec(-3, 8, 6)])
+    case("from_atomic_dec", f"uni_from_atomic_unit_dec NumCtx.py {lr(x_at)} {li(d0)}", "shR", lambda: from_atomic_unit(x_at, d0))
+    # update_fee: ticks around a range so that every branch (inside, same side, crossing up/down/over, touching a bound) is met
+    f_lo = rng.randint(-3000, 3000)
+    f_up = f_lo + rng.choice([0, 1, 10, 60, 600])
+    pick = lambda: rng.choice([f_lo, f_up, f_lo - 1, f_up - 1, f_up + 1, rng.randint(f_lo - 700, f_up + 700)])      # noqa: E731
+    f_last, f_close = pick(), pick()
+    f_liq = rng.choice([0, rng.randint(1, 10**18)])
+    f_cur = rng.choice([Decimal(0), Decimal(rng.randint(1, 10**22)), Decimal(f_liq), rand_dec()])
+    f_in0, f_in1 = Decimal(rng.randint(0, 10**14)), rng.choice([Decimal(rng.randint(0, 10**24)), rand_dec()])
+    f_p0, f_p1 = rng.choice([Decimal(0), rand_dec()]), rng.choice([Decimal(0), rand_dec()])
+
+    def upd_fee():
+        position = Position(f_p0, f_p1, f_liq, Decimal(1), Decimal(2), Decimal(1))
+        st = UniV3PoolStatus(price=Decimal(1), currentLiquidity=f_cur, inAmount0=f_in0, inAmount1=f_in1, closeTick=f_close)
+        V3CoreLib.update_fee(f_last, upool, PositionInfo(f_lo, f_up), position, st)
+        return (position.pending_amount0, position.pending_amount1)
+    case("uc_update_fee", f"unicore_update_fee NumCtx.py {li(f_liq)} {lr(f_cur)} {lr(f_in0)} {lr(f_in1)} {li(d0)} {li(d1)} {lr(upool.fee_rate)} "
+                          f"{li(f_lo)} {li(f_up)} {li(f_close)} {lr(f_p0)} {lr(f_p1)} {li(f_last)}", "shRR", upd_fee)
+
 HEAD = """import Demeter.Gen.PySqueethMarket
+import Demeter.Gen.PyUniswapCore
 import Demeter.Gen.PyTrigger
 import Demeter.Gen.PyBrokerTyping
 import Demeter.Gen.PyLiquitidyMath
@@ -219,7 +262,7 @@ import Demeter.Gen.PyDeribitMarket
 open Demeter Demeter.Py
 def shErr : Err → String
   | .ZeroDivisionError => "ZeroDivisionError" | .DivisionByZero => "DivisionByZero" | .InvalidOperation => "InvalidOperation"
-  | .AssertionError => "AssertionError" | .KeyError => "KeyError" | .ValueError => "ValueError" | .TypeError => "TypeError"
+  | .AssertionError => "AssertionError" | .KeyError => "KeyError" | .ValueError => "ValueError" | .TypeError => "TypeError" | .IndexError => "IndexError"
   | .Raised c => c | .Unsupported w => "Unsupported:" ++ w
 def rs (v : Rat) : String := s!"{v.num}/{v.den}"
 def shI : Except Err Int → String | .ok v => s!"ok {v}" | .error e => "err " ++ shErr e
